@@ -259,6 +259,9 @@ theories/Proofs/LockOrder.vos theories/Proofs/LockOrder.vok theories/Proofs/Lock
 theories/Proofs/Lru.vo theories/Proofs/Lru.glob theories/Proofs/Lru.v.beautified theories/Proofs/Lru.required_vo: theories/Proofs/Lru.v theories/Base/Sx.vo theories/Model/Lru.vo
 theories/Proofs/Lru.vio: theories/Proofs/Lru.v theories/Base/Sx.vio theories/Model/Lru.vio
 theories/Proofs/Lru.vos theories/Proofs/Lru.vok theories/Proofs/Lru.required_vos: theories/Proofs/Lru.v theories/Base/Sx.vos theories/Model/Lru.vos
+theories/Proofs/LruPut.vo theories/Proofs/LruPut.glob theories/Proofs/LruPut.v.beautified theories/Proofs/LruPut.required_vo: theories/Proofs/LruPut.v theories/Base/Sx.vo theories/Model/Lru.vo theories/Model/LruPut.vo theories/Proofs/Lru.vo
+theories/Proofs/LruPut.vio: theories/Proofs/LruPut.v theories/Base/Sx.vio theories/Model/Lru.vio theories/Model/LruPut.vio theories/Proofs/Lru.vio
+theories/Proofs/LruPut.vos theories/Proofs/LruPut.vok theories/Proofs/LruPut.required_vos: theories/Proofs/LruPut.v theories/Base/Sx.vos theories/Model/Lru.vos theories/Model/LruPut.vos theories/Proofs/Lru.vos
 theories/Proofs/Paths.vo theories/Proofs/Paths.glob theories/Proofs/Paths.v.beautified theories/Proofs/Paths.required_vo: theories/Proofs/Paths.v theories/Base/Sx.vo theories/Model/Paths.vo
 theories/Proofs/Paths.vio: theories/Proofs/Paths.v theories/Base/Sx.vio theories/Model/Paths.vio
 theories/Proofs/Paths.vos theories/Proofs/Paths.vok theories/Proofs/Paths.required_vos: theories/Proofs/Paths.v theories/Base/Sx.vos theories/Model/Paths.vos
@@ -328,9 +331,9 @@ theories/Properties/C05.vos theories/Properties/C05.vok theories/Properties/C05.
 theories/Properties/C06.vo theories/Properties/C06.glob theories/Properties/C06.v.beautified theories/Properties/C06.required_vo: theories/Properties/C06.v theories/Base/Sx.vo theories/Model/Lru.vo theories/Model/DiskCache.vo theories/Model/DiskTree.vo theories/Proofs/DiskCache.vo theories/Proofs/DiskTree.vo theories/Model/RoCache.vo
 theories/Properties/C06.vio: theories/Properties/C06.v theories/Base/Sx.vio theories/Model/Lru.vio theories/Model/DiskCache.vio theories/Model/DiskTree.vio theories/Proofs/DiskCache.vio theories/Proofs/DiskTree.vio theories/Model/RoCache.vio
 theories/Properties/C06.vos theories/Properties/C06.vok theories/Properties/C06.required_vos: theories/Properties/C06.v theories/Base/Sx.vos theories/Model/Lru.vos theories/Model/DiskCache.vos theories/Model/DiskTree.vos theories/Proofs/DiskCache.vos theories/Proofs/DiskTree.vos theories/Model/RoCache.vos
-theories/Properties/C07.vo theories/Properties/C07.glob theories/Properties/C07.v.beautified theories/Properties/C07.required_vo: theories/Properties/C07.v theories/Base/Sx.vo theories/Model/Lru.vo theories/Proofs/Lru.vo
-theories/Properties/C07.vio: theories/Properties/C07.v theories/Base/Sx.vio theories/Model/Lru.vio theories/Proofs/Lru.vio
-theories/Properties/C07.vos theories/Properties/C07.vok theories/Properties/C07.required_vos: theories/Properties/C07.v theories/Base/Sx.vos theories/Model/Lru.vos theories/Proofs/Lru.vos
+theories/Properties/C07.vo theories/Properties/C07.glob theories/Properties/C07.v.beautified theories/Properties/C07.required_vo: theories/Properties/C07.v theories/Base/Sx.vo theories/Model/Lru.vo theories/Model/LruPut.vo theories/Proofs/Lru.vo theories/Proofs/LruPut.vo
+theories/Properties/C07.vio: theories/Properties/C07.v theories/Base/Sx.vio theories/Model/Lru.vio theories/Model/LruPut.vio theories/Proofs/Lru.vio theories/Proofs/LruPut.vio
+theories/Properties/C07.vos theories/Properties/C07.vok theories/Properties/C07.required_vos: theories/Properties/C07.v theories/Base/Sx.vos theories/Model/Lru.vos theories/Model/LruPut.vos theories/Proofs/Lru.vos theories/Proofs/LruPut.vos
 theories/Properties/C08.vo theories/Properties/C08.glob theories/Properties/C08.v.beautified theories/Properties/C08.required_vo: theories/Properties/C08.v theories/Model/Crc32.vo theories/Model/Zip.vo theories/Proofs/Crc32.vo theories/Proofs/ZipBase.vo theories/Proofs/Zip.vo
 theories/Properties/C08.vio: theories/Properties/C08.v theories/Model/Crc32.vio theories/Model/Zip.vio theories/Proofs/Crc32.vio theories/Proofs/ZipBase.vio theories/Proofs/Zip.vio
 theories/Properties/C08.vos theories/Properties/C08.vok theories/Properties/C08.required_vos: theories/Properties/C08.v theories/Model/Crc32.vos theories/Model/Zip.vos theories/Proofs/Crc32.vos theories/Proofs/ZipBase.vos theories/Proofs/Zip.vos
@@ -343,9 +346,9 @@ theories/Properties/C10.vos theories/Properties/C10.vok theories/Properties/C10.
 theories/Properties/C11.vo theories/Properties/C11.glob theories/Properties/C11.v.beautified theories/Properties/C11.required_vo: theories/Properties/C11.v theories/Model/Client.vo theories/Proofs/Client.vo
 theories/Properties/C11.vio: theories/Properties/C11.v theories/Model/Client.vio theories/Proofs/Client.vio
 theories/Properties/C11.vos theories/Properties/C11.vok theories/Properties/C11.required_vos: theories/Properties/C11.v theories/Model/Client.vos theories/Proofs/Client.vos
-theories/Properties/C12.vo theories/Properties/C12.glob theories/Properties/C12.v.beautified theories/Properties/C12.required_vo: theories/Properties/C12.v theories/Model/CompilerCache.vo theories/Proofs/CompilerCache.vo
-theories/Properties/C12.vio: theories/Properties/C12.v theories/Model/CompilerCache.vio theories/Proofs/CompilerCache.vio
-theories/Properties/C12.vos theories/Properties/C12.vok theories/Properties/C12.required_vos: theories/Properties/C12.v theories/Model/CompilerCache.vos theories/Proofs/CompilerCache.vos
+theories/Properties/C12.vo theories/Properties/C12.glob theories/Properties/C12.v.beautified theories/Properties/C12.required_vo: theories/Properties/C12.v theories/Model/CompilerCache.vo theories/Proofs/CompilerCache.vo theories/Model/RustToolchain.vo theories/Proofs/RustToolchain.vo
+theories/Properties/C12.vio: theories/Properties/C12.v theories/Model/CompilerCache.vio theories/Proofs/CompilerCache.vio theories/Model/RustToolchain.vio theories/Proofs/RustToolchain.vio
+theories/Properties/C12.vos theories/Properties/C12.vok theories/Properties/C12.required_vos: theories/Properties/C12.v theories/Model/CompilerCache.vos theories/Proofs/CompilerCache.vos theories/Model/RustToolchain.vos theories/Proofs/RustToolchain.vos
 theories/Properties/C13.vo theories/Properties/C13.glob theories/Properties/C13.v.beautified theories/Properties/C13.required_vo: theories/Properties/C13.v theories/Base/Sx.vo theories/Model/DistStatus.vo theories/Model/DistFallback.vo theories/Model/DistArgs.vo theories/Model/DistHistory.vo theories/Model/DistRustInputs.vo theories/Model/DistPaths.vo theories/Proofs/DistStatus.vo theories/Proofs/DistFallback.vo theories/Proofs/DistArgs.vo theories/Proofs/DistHistory.vo theories/Proofs/DistRustInputs.vo theories/Proofs/DistPaths.vo
 theories/Properties/C13.vio: theories/Properties/C13.v theories/Base/Sx.vio theories/Model/DistStatus.vio theories/Model/DistFallback.vio theories/Model/DistArgs.vio theories/Model/DistHistory.vio theories/Model/DistRustInputs.vio theories/Model/DistPaths.vio theories/Proofs/DistStatus.vio theories/Proofs/DistFallback.vio theories/Proofs/DistArgs.vio theories/Proofs/DistHistory.vio theories/Proofs/DistRustInputs.vio theories/Proofs/DistPaths.vio
 theories/Properties/C13.vos theories/Properties/C13.vok theories/Properties/C13.required_vos: theories/Properties/C13.v theories/Base/Sx.vos theories/Model/DistStatus.vos theories/Model/DistFallback.vos theories/Model/DistArgs.vos theories/Model/DistHistory.vos theories/Model/DistRustInputs.vos theories/Model/DistPaths.vos theories/Proofs/DistStatus.vos theories/Proofs/DistFallback.vos theories/Proofs/DistArgs.vos theories/Proofs/DistHistory.vos theories/Proofs/DistRustInputs.vos theories/Proofs/DistPaths.vos
@@ -409,9 +412,9 @@ theories/Run/C10.vos theories/Run/C10.vok theories/Run/C10.required_vos: theorie
 theories/Run/C11.vo theories/Run/C11.glob theories/Run/C11.v.beautified theories/Run/C11.required_vo: theories/Run/C11.v theories/Base/Sx.vo theories/Model/Client.vo
 theories/Run/C11.vio: theories/Run/C11.v theories/Base/Sx.vio theories/Model/Client.vio
 theories/Run/C11.vos theories/Run/C11.vok theories/Run/C11.required_vos: theories/Run/C11.v theories/Base/Sx.vos theories/Model/Client.vos
-theories/Run/C12.vo theories/Run/C12.glob theories/Run/C12.v.beautified theories/Run/C12.required_vo: theories/Run/C12.v theories/Base/Sx.vo theories/Model/CompilerCache.vo theories/Gen/C12Window.vo
-theories/Run/C12.vio: theories/Run/C12.v theories/Base/Sx.vio theories/Model/CompilerCache.vio theories/Gen/C12Window.vio
-theories/Run/C12.vos theories/Run/C12.vok theories/Run/C12.required_vos: theories/Run/C12.v theories/Base/Sx.vos theories/Model/CompilerCache.vos theories/Gen/C12Window.vos
+theories/Run/C12.vo theories/Run/C12.glob theories/Run/C12.v.beautified theories/Run/C12.required_vo: theories/Run/C12.v theories/Base/Sx.vo theories/Model/CompilerCache.vo theories/Model/RustToolchain.vo theories/Gen/C12Window.vo
+theories/Run/C12.vio: theories/Run/C12.v theories/Base/Sx.vio theories/Model/CompilerCache.vio theories/Model/RustToolchain.vio theories/Gen/C12Window.vio
+theories/Run/C12.vos theories/Run/C12.vok theories/Run/C12.required_vos: theories/Run/C12.v theories/Base/Sx.vos theories/Model/CompilerCache.vos theories/Model/RustToolchain.vos theories/Gen/C12Window.vos
 theories/Run/C13.vo theories/Run/C13.glob theories/Run/C13.v.beautified theories/Run/C13.required_vo: theories/Run/C13.v theories/Base/Sx.vo theories/Model/DistStatus.vo theories/Model/DistFallback.vo theories/Model/DistArgs.vo theories/Model/DistHistory.vo theories/Model/DistRustInputs.vo theories/Model/DistPaths.vo
 theories/Run/C13.vio: theories/Run/C13.v theories/Base/Sx.vio theories/Model/DistStatus.vio theories/Model/DistFallback.vio theories/Model/DistArgs.vio theories/Model/DistHistory.vio theories/Model/DistRustInputs.vio theories/Model/DistPaths.vio
 theories/Run/C13.vos theories/Run/C13.vok theories/Run/C13.required_vos: theories/Run/C13.v theories/Base/Sx.vos theories/Model/DistStatus.vos theories/Model/DistFallback.vos theories/Model/DistArgs.vos theories/Model/DistHistory.vos theories/Model/DistRustInputs.vos theories/Model/DistPaths.vos
